@@ -7,6 +7,8 @@ pub enum B {
     List(Vec<B>),
     /// Entries in wire order (the writer emits them exactly in this order).
     Dict(Vec<(Vec<u8>, B)>),
+    /// Bytes emitted verbatim by the writer (for non-canonical / broken encodings).
+    Raw(Vec<u8>),
 }
 
 #[derive(Clone, Debug, Default, PartialEq, Eq)]
@@ -166,6 +168,7 @@ pub fn encode_into(v: &B, out: &mut Vec<u8>) {
             }
             out.push(b'e');
         }
+        B::Raw(r) => out.extend_from_slice(r),
         B::Dict(d) => {
             out.push(b'd');
             for (k, x) in d {
